@@ -17,5 +17,5 @@ OOpWSel == SelectSeq(OOpW, LAMBDA o : o \in Ops)
 \* key through the middleware and from the inner storage and logs the answers side by side (e.obs).
 \* Program-level GetObject calls therefore always name a version (they bypass the cache).
 WithVid(c, St) == IF c.op = "GetObject" /\ c.vid = -1 THEN [c EXCEPT !.vid = R(0..St.nv)] ELSE c
-OGenNext == Step(WithVid(RandCall(RW(OOpWSel), S), S))
+OGenNext == GStep(WithVid(RandCall(RW(OOpWSel), S), S))
 =============================================================================
